@@ -199,6 +199,12 @@ def flatten(case) -> Flat:
                 continue
             ins = [get(a) for a in st.args]
             uid = st.uid()
+            if op == "ite":
+                tb = new("tobool", uid, {}, [ins[0]], path)
+                i = new("ite", None, {}, [Ref(tb), ins[1], ins[2]], path)
+                if st.dst:
+                    env[st.dst] = Ref(i)
+                continue
             i = new(op, uid, dict(st.kw), ins, path)
             if st.dst:
                 env[st.dst] = Ref(i)
@@ -302,7 +308,7 @@ def sampled_start_insts(flat):
     return out
 
 
-def simulate(flat: Flat, emulate_stale=False, emulate_sampled_start=False, preset=None) -> ModelRun:
+def simulate(flat: Flat, emulate_stale=False, emulate_sampled_start=False, preset=None, ref_invalid_notify=True) -> ModelRun:
     case = flat.case
     start, end = case.start, case.end
     insts = flat.insts
@@ -437,6 +443,48 @@ def simulate(flat: Flat, emulate_stale=False, emulate_sampled_start=False, prese
         ticked = set()
         for k in flat.order:
             i, s = insts[k], S[k]
+            if i.op == "ite":
+                # Reference selection: reading through the reference == reading the currently selected target.
+                # s.st = desired input index from the condition (0 none), s.pos = effective input index,
+                # s.base = identity (inst id) of the finally resolved non-reference target (-1 none).
+                c = S[i.ins[0].target.id]
+                if i.ins[0].target.id in ticked:
+                    s.st = 1 if c.val != 0 else 2
+                eff = s.pos
+                if s.st in (1, 2):
+                    cand = i.ins[s.st].target
+                    # a selected input that is itself a reference with nothing published yet leaves the output reference as is
+                    if not (cand.op == "ite" and S[cand.id].pos == 0):
+                        eff = s.st
+                prev_final = s.base if s.pos else -1
+                s.pos = eff
+                final = -1
+                if eff in (1, 2):
+                    cur = i.ins[eff].target
+                    hops = 0
+                    while cur.op == "ite" and S[cur.id].pos in (1, 2) and hops < 50:
+                        cur = cur.ins[S[cur.id].pos].target
+                        hops += 1
+                    final = cur.id if cur.op != "ite" else -1
+                s.base = final
+                if final < 0:
+                    s.valid = False
+                if final >= 0:
+                    retarget = final != prev_final
+                    s.val, s.valid = S[final].val, S[final].valid
+                    if (retarget and (S[final].valid or (ref_invalid_notify and prev_final >= 0 and S[prev_final].valid))) or (final in ticked):
+                        s.lmt = t
+                        ticked.add(k)
+                        R.stats["ref_retargets" if retarget else "ref_target_ticks"] = R.stats.get("ref_retargets" if retarget else "ref_target_ticks", 0) + 1
+                    if retarget and not S[final].valid:
+                        R.stats["ref_retarget_to_invalid"] = R.stats.get("ref_retarget_to_invalid", 0) + 1
+                    if i.ins[0].target.id in ticked and not retarget:
+                        R.stats["ref_republished_same"] = R.stats.get("ref_republished_same", 0) + 1
+                    for q in (1, 2):
+                        o = i.ins[q].target.id
+                        if o in ticked and o != final and q != eff:
+                            R.stats["ref_unselected_ticks"] = R.stats.get("ref_unselected_ticks", 0) + 1
+                continue
             if i.op == "const" or i.op == "fb":
                 if s.queue and t in s.queue:
                     v = s.queue.pop(t)
@@ -508,6 +556,8 @@ def simulate(flat: Flat, emulate_stale=False, emulate_sampled_start=False, prese
                         request(i, s, t, t + int(i.kw.get("period", 1)))
                 elif op == "pass":
                     out = vals[0]
+                elif op == "tobool":
+                    out = 1 if vals[0] != 0 else 0
                 elif op == "thrower":
                     out = vals[0] + 1
                 elif op == "add2" or op == "allvalid2":
@@ -540,7 +590,7 @@ def simulate(flat: Flat, emulate_stale=False, emulate_sampled_start=False, prese
                     out = None
                 else:
                     raise RuntimeError("model: op " + op)
-                if out is not None and op not in ("src", "ticker", "pass", "count", "delay", "sched"):
+                if out is not None and op not in ("src", "ticker", "pass", "count", "delay", "sched", "tobool"):
                     out %= WRAP
                 if op == "acc":
                     s.st = out
